@@ -27,7 +27,7 @@ Fixpoint settle (n : nat) (eng : engine) (pr : bool) (m : machine) : M :=
 
 (* _process_event_queue (caller has checked and set _is_processing):
    structural on limit - processed *)
-Fixpoint drain (n : nat) (m : machine) : M :=
+Fixpoint drain (n : nat) (eng : engine) (m : machine) : M :=
   fun s =>
     match s_queue s with
     | [] => (s, None)
@@ -36,9 +36,9 @@ Fixpoint drain (n : nat) (m : machine) : M :=
         | 0 => (logo (OCut 0) (with_queue [] s), None)
         | S n' =>
             (lift (fun s' => logo (OBegin (e_type ev) (e_tag ev)) (with_queue q s')) ;;
-             process_event Sync true m ev ;;
-             settle (m_max_iter m) Sync true m ;;
-             drain n' m) s
+             process_event eng true m ev ;;
+             settle (m_max_iter m) eng true m ;;
+             drain n' eng m) s
         end
     end.
 
@@ -46,32 +46,55 @@ Definition init_tid : nat := 0.
 Definition hook_init (pre : list nat) : M := lift (fun s => logo (OTrans init_tid (sort_nat (s_cfg s))) s).
 
 (* SyncInterpreter.start().  Some e = the exception that escapes start(). *)
-Definition sync_start (m : machine) : M :=
+Definition sync_start_with (eng : engine) (m : machine) : M :=
   fun s =>
     match s_status s with
     | Stopped => (s, Some EInvalidConfig)
     | Uninit =>
         (lift (with_status Running None) ;;
-         enter Sync true m [0] None ;;
-         settle (m_max_iter m) Sync true m ;;
-         drain (m_max_iter m) m ;;
+         enter eng true m [0] None ;;
+         settle (m_max_iter m) eng true m ;;
+         drain (m_max_iter m) eng m ;;
          hook_init []) s
     | _ => (s, None)
     end.
 
+Definition sync_start (m : machine) : M := sync_start_with Sync m.
+
 (* SyncInterpreter.send(ev) from outside any processing *)
-Definition sync_send (m : machine) (ev : event) : M :=
+Definition sync_send_with (eng : engine) (m : machine) (ev : event) : M :=
   fun s =>
     match s_status s with
-    | Running => drain (m_max_iter m) m (with_queue (s_queue s ++ [ev]) s)
+    | Running => drain (m_max_iter m) eng m (with_queue (s_queue s ++ [ev]) s)
     | _ => (s, None)
     end.
+Definition sync_send (m : machine) (ev : event) : M := sync_send_with Sync m ev.
 Definition sync_send_events (m : machine) (evs : list event) : M :=
   fun s =>
     match s_status s with
-    | Running => drain (m_max_iter m) m (with_queue (s_queue s ++ evs) s)
+    | Running => drain (m_max_iter m) Sync m (with_queue (s_queue s ++ evs) s)
     | _ => (s, None)
     end.
+
+(* ---------------- pure API (helpers.py) ---------------- *)
+
+(* what a PureSnapshot carries: configuration, context, status, output - no history, no queue *)
+Record psnap := { ps_cfg : config; ps_ctx : ctx; ps_status : status; ps_output : option Z }.
+Definition capture (s : st) : psnap :=
+  {| ps_cfg := s_cfg s; ps_ctx := s_ctx s; ps_status := s_status s; ps_output := s_output s |}.
+Definition reported (s : st) : list obs :=
+  filter (fun o => match o with OPAct _ | OPBuiltin _ => true | _ => false end) (rev (s_log s)).
+
+(* initial_transition(machine) *)
+Definition pure_initial (m : machine) (cx : ctx) : st * option err :=
+  sync_start_with Pure m (st_init cx).
+
+(* transition(machine, snapshot, event): a fresh probe, status forced to running, the snapshot's
+   configuration and context, EMPTY history *)
+Definition pure_transition (m : machine) (p : psnap) (ev : event) : st * option err :=
+  sync_send_with Pure m ev
+    {| s_cfg := ps_cfg p; s_hist := []; s_ctx := ps_ctx p; s_queue := []; s_status := Running;
+       s_output := None; s_log := []; s_raise_depth := 0 |}.
 
 (* a whole sync run: start, then one send per event; errors escaping
    start()/send() are recorded in the log (the caller sees an exception) *)
